@@ -2,6 +2,7 @@ package genlint
 
 import (
 	"go/ast"
+	"go/types"
 	"go/token"
 
 	"cffverif/internal/astx"
@@ -63,7 +64,11 @@ func (c *ctx) packageVisibility() {
 	}
 	c.s.OK("G31", "generator|visibility check exists", c.pos(checks[0]), "scope lookup at the directive's position")
 	// (b) name-producing literals of generator.funcMap and generator.typePrinter
-	var lits []*ast.FuncLit
+	type producer struct {
+		body *ast.BlockStmt
+		node ast.Node
+	}
+	var lits []producer
 	var where []string
 	for _, name := range []string{"funcMap", "typePrinter"} {
 		fc, fd := c.findFunc(c.inter.PkgPath, "generator", name)
@@ -75,8 +80,8 @@ func (c *ctx) packageVisibility() {
 			switch x := n.(type) {
 			case *ast.KeyValueExpr:
 				if bl, ok := x.Key.(*ast.BasicLit); ok && bl.Value == `"import"` {
-					if fl := c.funcLitOf(x.Value, 0); fl != nil {
-						lits = append(lits, fl)
+					if body, node := c.funcBodyOf(x.Value); body != nil {
+						lits = append(lits, producer{body, node})
 						where = append(where, "generator."+name+`|"import"`)
 					}
 				}
@@ -98,8 +103,8 @@ func (c *ctx) packageVisibility() {
 							}
 						})
 					}
-					if fl := c.funcLitOf(arg, 0); fl != nil {
-						lits = append(lits, fl)
+					if body, node := c.funcBodyOf(arg); body != nil {
+						lits = append(lits, producer{body, node})
 						where = append(where, "generator."+name+"|type qualifier")
 					}
 				}
@@ -176,8 +181,8 @@ func (c *ctx) packageVisibility() {
 		return bad
 	}
 	for i, fl := range lits {
-		bad := unchecked(fl.Body, fl, 0)
-		c.s.Check(bad == "", "G31", where[i]+" checks the name it returns", c.pos(fl), "every non-empty package name handed to the templates is looked up in the directive's scope first", "a package name is handed to the templates (return at "+bad+") without the visibility check: a local declaration of that name captures the generated reference")
+		bad := unchecked(fl.body, fl.node, 0)
+		c.s.Check(bad == "", "G31", where[i]+" checks the name it returns", c.pos(fl.node), "every non-empty package name handed to the templates is looked up in the directive's scope first", "a package name is handed to the templates (return at "+bad+") without the visibility check: a local declaration of that name captures the generated reference")
 	}
 	// (c)
 	for _, name := range []string{"generateFlow", "generateParallel"} {
@@ -267,6 +272,12 @@ func (c *ctx) errorHandedOn(call *ast.CallExpr) bool {
 		return true
 	}
 	if is, ok := fc.par.Enclosing(call, func(n ast.Node) bool { _, ok := n.(*ast.IfStmt); return ok }).(*ast.IfStmt); ok && is.Init != nil && fc.par.Within(call, is.Init) && astx.Terminates(is.Body) {
+		// ... and what the branch returns is not the literal nil
+		for _, st := range is.Body.List {
+			if ret, ok := st.(*ast.ReturnStmt); ok && len(ret.Results) > 0 && astx.IsNil(fc.pkg.TypesInfo, ret.Results[len(ret.Results)-1]) {
+				return false
+			}
+		}
 		return true
 	}
 	return false
@@ -298,6 +309,35 @@ func (c *ctx) sharesFieldWith(d *ast.FuncDecl, checks []*ast.FuncDecl) bool {
 		return true
 	})
 	return found
+}
+
+// funcBodyOf: the body of the function an expression denotes: a function literal (possibly the one a package
+// function returns), a method value (`ip.printImport`) or a function of the package.
+func (c *ctx) funcBodyOf(e ast.Expr) (*ast.BlockStmt, ast.Node) {
+	if fl := c.funcLitOf(e, 0); fl != nil {
+		return fl.Body, fl
+	}
+	info := c.inter.TypesInfo
+	var fn *types.Func
+	switch x := astx.Unparen(e).(type) {
+	case *ast.SelectorExpr:
+		if sel := info.Selections[x]; sel != nil && sel.Kind() == types.MethodVal {
+			fn, _ = sel.Obj().(*types.Func)
+		} else {
+			fn, _ = info.Uses[x.Sel].(*types.Func)
+		}
+	case *ast.Ident:
+		fn, _ = info.Uses[x].(*types.Func)
+	}
+	if fn == nil || fn.Pkg() != c.inter.Types {
+		return nil, nil
+	}
+	for _, f2 := range c.files {
+		if d := astx.DeclOfFunc(info, []*ast.File{f2.file}, fn); d != nil && d.Body != nil {
+			return d.Body, d
+		}
+	}
+	return nil, nil
 }
 
 // funcLitOf: the function literal an expression denotes: the literal itself, or the one a package-local
